@@ -1,5 +1,4 @@
-//! C01 counterexample search (run only after a Verus unit of C01 reported a failed obligation, to find a concrete
-//! failing input for the replay file): every octet string of at most 7 octets over the octets that matter to the
+//! C01 native search (a bounded exploration of the real crate, run on every check; it also supplies the concrete input when a Verus obligation of the property fails): every octet string of at most 7 octets over the octets that matter to the
 //! name parser (label lengths 0, 1, 2, 63, the reserved type 0x40, pointers 0xC0/0xC1 and a letter), parsed as a
 //! possibly compressed name at every offset. A panic, a read that makes no progress for 10 s, or a parsed name whose
 //! own views disagree (labels forwards / backwards / flattened / flat slice / length) is the failing input. Then every
